@@ -6,6 +6,15 @@
 use crate::models::jitter::{lfsr_fold, stir};
 use crate::prng::Prng;
 
+/// value collected from pool `pool0` by non-stuck measurements with these (positive, 31-bit) deltas
+fn pure_value_from(pool0: u64, deltas: &[u32]) -> u64 {
+    let mut p = pool0;
+    for d in deltas {
+        p = lfsr_fold(p, *d as u64).rotate_left(7);
+    }
+    stir(p)
+}
+
 /// value collected from a zero pool by non-stuck measurements with these (positive, 31-bit) deltas
 fn pure_value(deltas: &[u32]) -> u64 {
     let mut p = 0u64;
@@ -32,6 +41,14 @@ fn stuck_free(deltas: &[u32]) -> bool {
 
 /// Solve for `n` deltas (n = rounds + 1) such that `pure_value(deltas) & mask == 0`.
 pub fn solve_deltas(rng: &mut Prng, n: usize, mask: u64) -> Option<Vec<u32>> {
+    solve_deltas_from(rng, 0, n, mask, 0)
+}
+
+/// Solve for `n` deltas such that a collection that starts from pool `pool0` yields a value `v` with
+/// `v & mask == target & mask` (e.g. target = pool0, mask = all ones: the collection returns the value
+/// the previous one returned - a fixed point).
+pub fn solve_deltas_from(rng: &mut Prng, pool0: u64, n: usize, mask: u64, target: u64) -> Option<Vec<u32>> {
+    let pure_value = |d: &[u32]| pure_value_from(pool0, d) ^ target;
     let nvars = 31 * n;
     if nvars > 128 {
         return None;
